@@ -124,6 +124,9 @@ def run_kani(crate, harnesses, tag, jobs=8, harness_timeout=600, overall_timeout
                     # Kani 0.68 still emits this residual reference-validity check inside std (e.g. for the dangling
                     # pointer of an empty Vec cloned under a symbolic guard); it is counted, not judged.
                     ignored.append(item)
+                elif cat == 'unsupported_construct':
+                    # the code under test reached something Kani cannot execute (FFI, intrinsics): not a verdict
+                    unwind_fail.append(item)
                 elif cat == 'unwind':
                     unwind_fail.append(item)
                 else:
@@ -145,7 +148,7 @@ def run_kani(crate, harnesses, tag, jobs=8, harness_timeout=600, overall_timeout
             res['verdict'] = 'fails'
         elif unwind_fail:
             res['verdict'] = 'inconclusive'
-            res['reason'] = 'unwinding assertion failed (bound too small): %s' % unwind_fail[0]['function']
+            res['reason'] = 'unwinding assertion failed or unsupported construct reached: %s (%s)' % (unwind_fail[0]['function'], unwind_fail[0]['description'][:80])
         elif undetermined:
             res['verdict'] = 'inconclusive'
             res['reason'] = 'undetermined checks: %s' % undetermined[:3]
